@@ -71,6 +71,14 @@ def monitor (s : Scn) (out : String) : String := Id.run do
            permitted cfg.st ow cfg.force cur prev p.cp && cfg.scope p.kind == .namespaced &&
            (ow.ns == "" || desiredNs ow p == ow.ns) && p.dryRun != .error then
           return s!"bad permitted-adoption-failed {keyStr (keyOf cfg ow p)}"
+        -- 2c. … and a refusal (foreign, not newer, not permitted) of an admissible object must come
+        --     out as one of the adoption-refused errors (what is reported as CollisionDetected),
+        --     not as an anonymous error
+        if !isController cfg.st (ow.ref true) cur && cur.rev != .garbage &&
+           decide (revNum cur.rev ≤ ow.rev) && !permitted cfg.st ow cfg.force cur prev p.cp &&
+           cfg.scope p.kind == .namespaced && (ow.ns == "" || desiredNs ow p == ow.ns) &&
+           p.dryRun == .accept && !p.presetOwnerRef then
+          return s!"bad refusal-not-reported-as-collision {keyStr (keyOf cfg ow p)}"
       | none => pure ()
     | _ => pure ()
   -- 3. a reported collision needs a refused object
